@@ -314,3 +314,93 @@ func c18ProgDrivers7() []c18ProgDriver {
 		}},
 	}
 }
+
+func c18ProgDrivers8() []c18ProgDriver {
+	return []c18ProgDriver{
+		{"DiffPage", func(g *c18ProgGen) (core.Component, *c18Env, string) {
+			l, r := g.doc(), g.doc()
+			if g.r.Chance(1, 3) {
+				r = l
+			}
+			co := gedcom.NewIndividualNodesCompareOptions()
+			co.Jobs = 1 // one worker: the comparisons arrive in their order, ties keep it
+			cmp := l.Individuals().Compare(r.Individuals(), co)
+			ff := &gedcom.FilterFlags{HideEqual: g.r.Bool()}
+			show := g.r.Pick([]string{ghtml.DiffPageShowAll, ghtml.DiffPageShowSubset, ghtml.DiffPageShowOnlyMatches})
+			sortBy := g.r.Pick([]string{ghtml.DiffPageSortWrittenName, ghtml.DiffPageSortHighestSimilarity})
+			vis := g.vis()
+			ga := g.ga()
+			ws := func(c *gedcom.IndividualComparison) float64 {
+				if c.Similarity != nil {
+					return c.Similarity.WeightedSimilarity()
+				}
+				return 0
+			}
+			type ent struct {
+				c    *gedcom.IndividualComparison
+				html string
+			}
+			var ents []ent
+			for _, c := range cmp {
+				switch show {
+				case ghtml.DiffPageShowSubset:
+					if gedcom.IsNil(c.Right) {
+						continue
+					}
+				case ghtml.DiffPageShowOnlyMatches:
+					if gedcom.IsNil(c.Left) || gedcom.IsNil(c.Right) {
+						continue
+					}
+				}
+				out := c18Render(ghtml.NewIndividualCompare(c, ff, nil, co, vis))
+				if out == "" {
+					continue
+				}
+				ents = append(ents, ent{c, out})
+			}
+			name := func(c *gedcom.IndividualComparison) string {
+				a := c.Left
+				if a == nil {
+					a = c.Right
+				}
+				return a.Name().String()
+			}
+			sort.SliceStable(ents, func(i, j int) bool {
+				if sortBy == ghtml.DiffPageSortHighestSimilarity {
+					if a, b := ws(ents[i].c), ws(ents[j].c); a != b {
+						return a > b
+					}
+				}
+				return name(ents[i].c) < name(ents[j].c)
+			})
+			e := c18NewEnv()
+			e.GA = ga
+			rows, pages := []string{}, []string{}
+			for _, en := range ents {
+				c := en.c
+				w := ws(c)
+				ie := c18NewEnv()
+				ie.B["comparison.comparison.Left != nil && comparison.comparison.Right == nil"] = c.Left != nil && c.Right == nil
+				ie.B["comparison.comparison.Left == nil && comparison.comparison.Right != nil"] = c.Left == nil && c.Right != nil
+				ie.B["weightedSimilarity < 1"] = w < 1
+				ie.B["weightedSimilarity != 0"] = w != 0
+				ie.B["c.filterFlags.HideEqual"] = ff.HideEqual
+				ie.S[`similarityString := fmt.Sprintf("%.2f%%", weightedSimilarity*100)`] = ""
+				if w != 0 {
+					ie.S[`similarityString := fmt.Sprintf("%.2f%%", weightedSimilarity*100)`] = fmt.Sprintf("%.2f%%", w*100)
+				}
+				ie.K[`leftNameAndDates := NewIndividualNameAndDatesLink(comparison.comparison.Left, c.visibility, "")`] =
+					g.nest("IndividualNameAndDatesLink", g.envNameAndDatesLink(c.Left, vis, ""))
+				ie.K[`rightNameAndDates := NewIndividualNameAndDatesLink(comparison.comparison.Right, c.visibility, "")`] =
+					g.nest("IndividualNameAndDatesLink", g.envNameAndDatesLink(c.Right, vis, ""))
+				rows = append(rows, g.nest("DiffPage_item0", ie))
+				pe := c18NewEnv()
+				pe.K["comparison := element of precalculatedComparisons"] = "html " + hexs(en.html)
+				pages = append(pages, g.nest("DiffPage_item1", pe))
+			}
+			e.L["range precalculatedComparisons: every iteration is the program DiffPage_item0"] = rows
+			e.L["range precalculatedComparisons: every element is the program DiffPage_item1"] = pages
+			return ghtml.NewDiffPage(cmp, ff, ga, show, sortBy, nil, co, vis), e, fmt.Sprint(c18Bucket(len(ents)), show, sortBy, ff.HideEqual)
+		}},
+	}
+}
